@@ -7,10 +7,13 @@ import threading
 
 
 class RecFile:
-    def __init__(self, rec, path, mode, hid):
+    def __init__(self, rec, path, mode, hid, *a, **kw):
         self.rec, self.name, self.mode, self.hid = rec, path, mode, hid
-        self._f = builtins.open(path, mode)
+        self._f = builtins.open(path, mode, *a, **kw)       # (buffering / opener arguments are the caller's)
         self.closed = False
+        if rec.initial is None:         # what the path holds right after the writer opened it: empty unless the open did not truncate
+            with builtins.open(path, 'rb') as f0:
+                rec.initial = f0.read()
 
     def write(self, data):
         data = bytes(data)
@@ -82,13 +85,14 @@ class Recorder:
         self.lock = threading.RLock()
         self.handles = 0
         self.on_write = None
+        self.initial = None
 
     def open(self, path, mode='r', *a, **kw):
         if path == self.out_path and ('w' in mode or '+' in mode or 'a' in mode):
             with self.lock:
                 self.handles += 1
                 hid = self.handles
-            return RecFile(self, path, mode, hid)
+            return RecFile(self, path, mode, hid, *a, **kw)
         return builtins.open(path, mode, *a, **kw)
 
     def writes(self):
@@ -115,9 +119,10 @@ def recording(out_path):
                 m.open = s
 
 
-def apply_prefix(writes, k, cut=None):
-    """file content after the first k writes (and `cut` bytes of write k+1), applied at their offsets"""
-    buf = bytearray()
+def apply_prefix(writes, k, cut=None, base=b''):
+    """file content after the first k writes (and `cut` bytes of write k+1), applied at their offsets, on top of what the path
+    held when the writer had opened it (`base`: empty when the open truncates)"""
+    buf = bytearray(base)
     seq = list(writes[:k])
     if cut is not None and k < len(writes):
         w = dict(writes[k])
